@@ -73,8 +73,14 @@ def gen_names(r, k, net=False):
             if longs:
                 b = r.choice(longs)
                 add(b[:250] + "".join(r.choice("abAB") for _ in range(r.choice([6, 10, 50]))), "truncation")
+        elif c < 0.90:
+            add(r.choice(out) + "_sdn_%d_" % r.choice([1, 2, 9, 10, 99]), "sdn-suffix")
         elif c < 0.95:
-            add(r.choice(out) + "_sdn_%d_" % r.choice([1, 2, 10]), "sdn-suffix")
+            # counter about to gain a digit on an identifier that is already at the length limit, plus its case twin
+            n = r.choice([247, 248, 249])
+            base = r.choice("aAbB") + "".join(r.choice("abAB_0") for _ in range(n - 1)) + "_sdn_%d_" % r.choice([9, 99])
+            add(base, "long")
+            add(base.swapcase(), "case-only")
         else:
             add(r.choice(["&", "&a", "_", "9", "-", "a-b", "A_b", "a_B", "x[", "x[0", "[3]x", "\\esc ", "a b"]), "special")
     return out, kinds
